@@ -58,9 +58,9 @@ UNKNOWN_COLS = ["foo", "instance_id", "my col", "Comment", "x-y", "notes"]
 ROOT_NAMES = ["data", "root1", "Form", "my-form", "x.y", "_r", "survey1", "généré", "D"]
 BAD_NAMES = ["1a", "a b", "$x", "-x", "a$b"]
 STD_PREFIXES = ["jr", "orx", "odk", "ev", "xsd", "h"]
-NS_PREFIXES = ["foo", "bar", "my-ns", "e_x", "Ünï", "p1"]
+NS_PREFIXES = ["foo", "bar", "my-ns", "e_x", "p1", "ns.2", "q", "Foo", "x1", "Ünï", "abc", "_p"]
 URIS = ["http://foo", "http://example.com/ns", "urn:x:y", "http://a/b?c=d", "x", "http://é", "a&b", "<uri>"]
-ATTR_LOCALS = ["x", "y", "abc", "a-b", "a.b", "_u", "Z9", "é"]
+ATTR_LOCALS = ["x", "y", "abc", "a-b", "a.b", "_u", "Z9", "é", "id", "version", "prefix", "Data", "k1", "k2", "k_3", "w"]
 YES = ["yes", "Yes", "YES", "true", "True", "TRUE", "true()"]
 NO = ["no", "No", "NO", "false", "False", "FALSE", "false()"]
 STEMS = ["myform", "my form", "form.v2", "Ünï", "data", "A", "x-1", "None", "survey"]
@@ -127,7 +127,7 @@ def gen_value(rng, canon, tamed, knobs):
     if canon == "name":
         return rng.choice(BAD_NAMES) if r < 0.06 else rng.choice(ROOT_NAMES)
     if canon == "omit_instanceID":
-        return rng.choice(YES[:6]) if r < 0.55 else rng.choice(NO[:6]) if r < 0.85 else t(2)
+        return rng.choice(YES[:6]) if r < 0.3 else rng.choice(NO[:6]) if r < 0.8 else t(2)
     if canon in ("auto_send", "auto_delete"):
         return rng.choice(["true", "false"]) if r < 0.6 else t(3)
     if canon == "version":
@@ -487,6 +487,8 @@ def one_case(ctx, case, tmpdir):
     ctx.count("channel:" + case["channel"])
     ctx.count("n_settings:%02d" % len(case["intended"] + case["attribute"]))
     ctx.count("fragment:" + ("unsupported" if m["outcome"] == "unsupported" else "modelled"))
+    if m["outcome"] == "unsupported":
+        ctx.count("unsupported:" + m["why"])
     obs = None
     if r["class"] == "ok":
         obs, perr = observe_header(r["xform"])
